@@ -1,5 +1,6 @@
 import Rooc.Wire
 import Rooc.Oracle
+import Rooc.OracleC10
 namespace Rooc.Drv.C10
 open Rooc Sexp
 
@@ -22,7 +23,7 @@ def handle (α : Type) [Arith α] [Wire α] : List Sexp → Sexp
 def oracle : List Sexp → Sexp
   | [.atom "check-rewrite", e, e'] =>
     match (Exp.dec e : Option (Exp (Ext Rat))), (Exp.dec e' : Option (Exp (Ext Rat))) with
-    | some e, some e' => Oracle.checkRewrite e e'
+    | some e, some e' => OracleC10.checkRewrite e e'
     | _, _ => app "err" [.atom "decode"]
   | _ => app "err" [.atom "bad-request"]
 end Rooc.Drv.C10
